@@ -45,6 +45,8 @@ int64_t to_int64(maxint_t x)
 {
   if (x > pstd::numeric_limits<int64_t>::max())
     throw primecount_error("x must be < 2^63");
+  if (x < pstd::numeric_limits<int64_t>::min())
+    throw primecount_error("x must be >= -2^63");
   return (int64_t) x;
 }
 
@@ -400,7 +402,7 @@ int main (int argc, char* argv[])
       case OPTION_NTHPRIME:
         res = nth_prime(to_int64(x), threads); break;
       case OPTION_PHI:
-        res = phi(to_int64(x), a, threads); break;
+        res = phi(to_int64(x), to_int64(a), threads); break;
       case OPTION_P2:
         res = P2(x, threads); break;
       case OPTION_S1:
